@@ -10,6 +10,7 @@ statements for every `Codec`.
 import ConfModel.Lemmas.Convert
 import ConfModel.Lemmas.Base64
 import ConfModel.Lemmas.GetQuery
+import ConfModel.Spec.GetQuery
 import ConfModel.Generated.C18Facts
 import ConfModel.Lemmas.ProtoWire
 namespace ConfModel.Props.C18
@@ -519,6 +520,62 @@ theorem get_plus_witness :
     getWire false [0x2B, 0x26, 0x3D, 0x25, 0x20] =
       [0x25, 0x32, 0x42, 0x25, 0x32, 0x36, 0x25, 0x33, 0x44, 0x25, 0x32, 0x35, 0x2B] ∧
     getRead false [0x2B] = some [0x20] := by decide
+
+/-- The two definitions of the padded URL-safe encoder (alphabet table of its own / standard
+alphabet with the two characters swapped) are the same function. -/
+theorem encodeURL_eq_swapped (x : List UInt8) : encodeURL x = encodeURLPadded x := by
+  unfold encodeURL encodeURLPadded padding
+  rw [encodeURLRaw_eq_map]
+  rfl
+
+/-- What the driver evaluates on the implementation's output (`Spec/GetQuery.lean`: the value on
+the wire reads back to the message as the specification reads it, stays inside its `key=value`
+pair, and the handler received the message) holds of the model for every message. -/
+theorem get_spec_of_model (b64 : Bool) (msg : List UInt8) :
+    GetQuerySpec.getHolds b64 msg (getWire b64 msg) (getRead b64 (getWire b64 msg)) = true := by
+  have hclosed : GetQuerySpec.wireClosed (getWire b64 msg) = true := by
+    unfold GetQuerySpec.wireClosed getWire
+    rw [List.all_eq_true]
+    intro c hc
+    obtain ⟨h1, h2, h3, h4, h5⟩ := query_escape_safe _ c hc
+    simp [h1, h2, h3, h4, h5]
+  have hreads : GetQuerySpec.wireReads b64 msg (getWire b64 msg) = true := by
+    unfold GetQuerySpec.wireReads getWire
+    rw [queryUnescape_queryEscape]
+    cases b64 with
+    | false => simp [getParam]
+    | true =>
+      simp only [getParam, ↓reduceIte, encodeURL_eq_swapped, decodeURLPadded_encode]
+      simp
+  unfold GetQuerySpec.getHolds GetQuerySpec.received
+  rw [hreads, hclosed, get_wire_roundtrip]
+  simp
+
+/-- The decoding end, for whatever wrote the value: a parameter that is the padded or the raw
+URL-safe encoding of `x` (or, without base64, `x` itself) is read as `x`. -/
+theorem get_reader_spec (b64 : Bool) (p x : List UInt8) (h : GetQuerySpec.encodes b64 p x = true) :
+    readParam b64 p = some x := by
+  unfold GetQuerySpec.encodes at h
+  cases b64 with
+  | false => simp only [Bool.false_eq_true, ↓reduceIte, beq_iff_eq] at h; simp [readParam, h]
+  | true =>
+    simp only [↓reduceIte, Bool.or_eq_true, beq_iff_eq] at h
+    rcases h with rfl | rfl
+    · exact binaryQueryRead_encodeURL x
+    · exact binaryQueryRead_encodeURLRaw x
+
+example : GetQuerySpec.encodes true [45, 95, 56, 61] [0xFB, 0xFF] = true ∧
+    GetQuerySpec.encodes true [45, 95, 56] [0xFB, 0xFF] = true := by decide
+
+set_option maxRecDepth 100000 in
+/-- the alphabets and the escaping of the model are the library's: both encoders called on all 64
+sextets, `url.QueryEscape` called on all 256 bytes (complete tables, regenerated from the tree) -/
+theorem get_tables :
+    Generated.C18Facts.urlAlphabet = (List.range 64).map (fun n => (encCharURL n).toNat) ∧
+    Generated.C18Facts.stdAlphabet = (List.range 64).map (fun n => (encChar n).toNat) ∧
+    Generated.C18Facts.queryEscapeByte =
+      (List.range 256).map (fun n => (queryEscapeByte (UInt8.ofNat n)).map (·.toNat)) := by
+  decide
 
 end GetQuery
 
